@@ -43,6 +43,38 @@ def relq(*arrs, rel=1e-9):
     return rel * max(m, 1e-300)
 
 
+def measured_beta(g, loc):
+    """cos(beta), tan(beta) measured from the grid itself, with the definitions of Metric.tla:
+    dx_hat = direction of increasing x-index (xlow -> next xlow at centre; corner -> next corner at ylow),
+    psihat = grad(psi)/|grad(psi)| of the equilibrium, rot(psihat) = psihat rotated clockwise."""
+    t = g.extra["tables"]
+    cosb = np.full((t["meshnx"], t["meshny"]), np.nan)
+    tanb = np.full_like(cosb, np.nan)
+    h = 1e-6
+    eq = g.eq
+    for r in g.extra["regions"]:
+        i = r["id"]
+        x0, x1, y0, y1 = t["rects"][i]
+        if loc == "centre":
+            Rf, Zf = g.reg["r%d_Rxy_xlow" % i], g.reg["r%d_Zxy_xlow" % i]
+            Rp, Zp = g.reg["r%d_Rxy_centre" % i], g.reg["r%d_Zxy_centre" % i]
+        else:
+            Rf, Zf = g.reg["r%d_Rxy_corners" % i][:, :-1], g.reg["r%d_Zxy_corners" % i][:, :-1]
+            Rp, Zp = g.reg["r%d_Rxy_ylow" % i][:, :-1], g.reg["r%d_Zxy_ylow" % i][:, :-1]
+        dR, dZ = Rf[1:, :] - Rf[:-1, :], Zf[1:, :] - Zf[:-1, :]
+        n = np.hypot(dR, dZ)
+        dR, dZ = dR / n, dZ / n
+        pR = (eq.psi(Rp + h, Zp) - eq.psi(Rp - h, Zp)) / (2 * h)
+        pZ = (eq.psi(Rp, Zp + h) - eq.psi(Rp, Zp - h)) / (2 * h)
+        m = np.hypot(pR, pZ)
+        pR, pZ = pR / m, pZ / m
+        c = dR * pR + dZ * pZ
+        sn = dR * pZ + dZ * (-pR)          # dx_hat . (psihat rotated clockwise) = dx_hat . (pZ, -pR)
+        cosb[x0:x1, y0:y1] = c
+        tanb[x0:x1, y0:y1] = sn / c
+    return cosb, tanb
+
+
 def obs_C02(g, out):
     orth = g.extra["orthogonal"]
     for loc in ("centre", "xlow", "ylow"):
@@ -71,20 +103,23 @@ def obs_C02(g, out):
                 pair(out, "OrthogonalZero_" + k, loc, up[k], np.zeros(R.shape), 1e-12, 0)
             pair(out, "OrthogonalZero_g_12", loc, dn["g_12"], np.zeros(R.shape), 1e-12, 0)
         elif loc in ("centre", "ylow"):
-            cosb = region_assemble(g, "cosBeta", loc)
-            tanb = region_assemble(g, "tanBeta", loc)
+            # the non-orthogonality angle is MEASURED here from positions and grad(psi), not taken from the code
+            cosb, tanb = measured_beta(g, loc)
+            pair(out, "BetaIsMeasuredAngle_cos", loc, region_assemble(g, "cosBeta", loc), cosb, 1e-7, 100)
+            pair(out, "BetaIsMeasuredAngle_tan", loc, region_assemble(g, "tanBeta", loc), tanb, 1e-7 * max(1.0, float(np.nanmax(np.abs(tanb)))), 100)
         else:
             cosb = tanb = None
         if cosb is not None:
-            pair(out, "ClosedForm_g22", loc, up["g22"], 1.0 / (hy * cosb) ** 2, relq(up["g22"]), 20)
-            pair(out, "ClosedForm_g33", loc, up["g33"], 1.0 / R ** 2 + (dphidy / (hy * cosb)) ** 2, relq(up["g33"]), 20)
-            pair(out, "ClosedForm_g_11", loc, dn["g_11"], 1.0 / (R * Bp * cosb) ** 2, relq(dn["g_11"]), 20)
+            fq = 1.0 if orth else 100.0     # measured beta carries the error of a finite-difference gradient (~1e-8)
+            pair(out, "ClosedForm_g22", loc, up["g22"], 1.0 / (hy * cosb) ** 2, relq(up["g22"]) * fq, 20)
+            pair(out, "ClosedForm_g33", loc, up["g33"], 1.0 / R ** 2 + (dphidy / (hy * cosb)) ** 2, relq(up["g33"]) * fq, 20)
+            pair(out, "ClosedForm_g_11", loc, dn["g_11"], 1.0 / (R * Bp * cosb) ** 2, relq(dn["g_11"]) * fq, 20)
             pair(out, "ClosedForm_g_22", loc, dn["g_22"], hy ** 2 + (dphidy * R) ** 2, relq(dn["g_22"]), 20)
             sg = np.sign(Bp)
-            pair(out, "ClosedForm_g12", loc, up["g12"], -sg * R * np.abs(Bp) * tanb / hy, relq(up["g11"], up["g22"]), 20)
-            pair(out, "ClosedForm_g13", loc, up["g13"], sg * Bt * tanb, relq(up["g11"], up["g33"]), 20)
-            pair(out, "ClosedForm_g_12", loc, dn["g_12"], sg * hy * tanb / (R * np.abs(Bp)), relq(dn["g_11"], dn["g_22"]), 20)
-            pair(out, "ClosedForm_g23", loc, up["g23"], -sg * dphidy / (hy * cosb) ** 2, relq(up["g23"]) if np.nanmax(np.abs(up["g23"])) > 0 else 1e-12, 20)
+            pair(out, "ClosedForm_g12", loc, up["g12"], -sg * R * np.abs(Bp) * tanb / hy, relq(up["g12"], rel=1e-7) if np.nanmax(np.abs(up["g12"])) > 0 else 1e-12, 100)
+            pair(out, "ClosedForm_g13", loc, up["g13"], sg * Bt * tanb, relq(up["g13"], Bt, rel=1e-7), 100)
+            pair(out, "ClosedForm_g_12", loc, dn["g_12"], sg * hy * tanb / (R * np.abs(Bp)), relq(dn["g_12"], rel=1e-7) if np.nanmax(np.abs(dn["g_12"])) > 0 else 1e-12, 100)
+            pair(out, "ClosedForm_g23", loc, up["g23"], -sg * dphidy / (hy * cosb) ** 2, (relq(up["g23"]) if np.nanmax(np.abs(up["g23"])) > 0 else 1e-12) * fq, 20)
             pair(out, "ClosedForm_g_23", loc, dn["g_23"], sg * dphidy * R ** 2, relq(dn["g_23"]) if np.nanmax(np.abs(dn["g_23"])) > 0 else 1e-12, 20)
     # y-z coupling against the toroidal shift stored in the same grid (centre): g_23 = g_33 * d(zShift)/dy
     dy = g.var("dy")
@@ -118,6 +153,22 @@ def obs_C02(g, out):
         d12 = (dRx * dRy + dZx * dZy) / (dx * dy)
         pair(out, "Displacement_g_12", "centre", g_12, d12, relq(g_12, d12, rel=1e-6), 0, kind="signratio12", dom="legsAwayX")
         out["g12scale"] = Q(np.sqrt(np.abs(g_11 * pol22)), relq(g_12, d12, rel=1e-6))
+        # the same at the ylow location: corner-to-corner displacement in x, centre-to-centre in y (rows inside a region)
+        dRxl = np.full_like(dRx, np.nan); dZxl = np.full_like(dRx, np.nan); dRyl = np.full_like(dRx, np.nan); dZyl = np.full_like(dRx, np.nan)
+        for r in g.extra["regions"]:
+            x0, x1, y0, y1 = t["rects"][r["id"]]
+            Rk, Zk = g.reg["r%d_Rxy_corners" % r["id"]], g.reg["r%d_Zxy_corners" % r["id"]]
+            Rc, Zc = g.reg["r%d_Rxy_centre" % r["id"]], g.reg["r%d_Zxy_centre" % r["id"]]
+            dRxl[x0:x1, y0:y1] = (Rk[1:, :] - Rk[:-1, :])[:, :-1]
+            dZxl[x0:x1, y0:y1] = (Zk[1:, :] - Zk[:-1, :])[:, :-1]
+            dRyl[x0:x1, y0 + 1:y1] = Rc[:, 1:] - Rc[:, :-1]
+            dZyl[x0:x1, y0 + 1:y1] = Zc[:, 1:] - Zc[:, :-1]
+        dxl, dyl = g.var("dx_ylow"), g.var("dy_ylow")
+        d12l = (dRxl * dRyl + dZxl * dZyl) / (dxl * dyl)
+        q12l = relq(g.var("g_12_ylow"), np.where(np.isfinite(d12l), d12l, 0.0), rel=1e-6)
+        pair(out, "Displacement_g_12", "ylow", g.var("g_12_ylow"), d12l, q12l, 0, kind="signratio12y", dom="legsAwayXnotfirst")
+        pol22l = g.var("g_22_ylow") - (g.var("Rxy_ylow") * g.var("dphidy_ylow")) ** 2
+        out["g12scale_ylow"] = Q(np.sqrt(np.abs(g.var("g_11_ylow") * pol22l)), q12l)
 
 
 P.OBS["C02"] = obs_C02
